@@ -575,3 +575,84 @@ def r13(rr, repo):
 def r14(rr, repo):
     from .c02 import r5 as c02r5
     c02r5(rr, repo)
+
+
+def _mutable_default(node):
+    return isinstance(node, (ast.Dict, ast.List, ast.Set, ast.DictComp, ast.ListComp, ast.SetComp)) or \
+        (isinstance(node, ast.Call) and U(node.func) in ('dict', 'list', 'set', 'bytearray', 'defaultdict', 'collections.defaultdict', 'OrderedDict'))
+
+
+def _escaping_mutable_defaults(fn):
+    """parameters of `fn` whose default is a mutable object created once, at definition time, and which the function hands out (returns or stores): every call without the argument gets the same object"""
+    a = fn.args
+    pos = a.posonlyargs + a.args
+    pairs = list(zip(pos[len(pos) - len(a.defaults):], a.defaults)) + [(p, d) for p, d in zip(a.kwonlyargs, a.kw_defaults) if d is not None]
+    out = []
+    for p, d in pairs:
+        if not _mutable_default(d):
+            continue
+        name = p.arg
+        def mentions(x):
+            return any(isinstance(n, ast.Name) and n.id == name and isinstance(n.ctx, ast.Load) for n in ast.walk(x))
+        esc = [n for n in walk_scope(fn) if (isinstance(n, ast.Return) and n.value is not None and mentions(n.value)) or
+               (isinstance(n, ast.Assign) and any(isinstance(t, (ast.Attribute, ast.Subscript)) for t in n.targets) and mentions(n.value)) or
+               (isinstance(n, ast.Call) and isinstance(n.func, ast.Attribute) and n.func.attr in ('append', 'setdefault', 'update', 'add') and any(mentions(x) for x in n.args))]
+        if esc:
+            out.append((name, d, esc[0]))
+    return out
+
+
+@rule('C09.R15', "a frame that is sent with empty data arrives with empty data - its own: the data dict of a frame built without data is created for that frame ({} evaluated per call). One dict shared by "
+                 "every such frame (a mutable default argument that is handed out) equals {} only until someone annotates a received frame in place - from then on every frame decoded without a data "
+                 "part carries that annotation, other topics of the set and all later sets included")
+def r15(rr, repo):
+    mod, init = repo.find(f'{FR}::Frame.__init__')
+    params = q.func_params(init)
+    data = params[2] if len(params) > 2 else 'data'
+    n = 0
+    def when_none(v):
+        """the sub-expression of `v` that is the value when `data` is None; None if `v` does not depend on it that way"""
+        if isinstance(v, ast.IfExp) and isinstance(v.test, ast.Compare) and len(v.test.ops) == 1 and U(v.test.left) == data and U(v.test.comparators[0]) == 'None':
+            if isinstance(v.test.ops[0], ast.Is):
+                return when_none(v.body) or v.body
+            if isinstance(v.test.ops[0], ast.IsNot):
+                return when_none(v.orelse) or v.orelse
+        return None
+    stores = [st for st in walk_scope(init) if isinstance(st, ast.Assign) and any(isinstance(t, ast.Attribute) and t.attr.endswith('__data') for t in st.targets)]
+    for st in stores:
+        g = q.effective_guards(st, init)
+        v = when_none(st.value)
+        if v is None:
+            if any(t.replace(' ', '') == f'{data}isNone' and pol for t, pol in g):
+                v = st.value
+            elif isinstance(st.value, ast.Call) and any(isinstance(x, ast.Name) and x.id == data for a_ in st.value.args for x in ast.walk(a_)):
+                v = st.value          # a helper that is given `data` decides
+            else:
+                continue              # a store for the other cases (a dict or a Frame was passed)
+        src = U(v)
+        if '__data' in src and not isinstance(v, ast.Call):            # taken from the Frame passed as image: that frame's own dict (sharing between a frame and its copy is C10's subject)
+            continue
+        n += 1
+        if src in ('{}', 'dict()'):
+            rr.ob('a frame built without data gets a dict of its own', True, mod, st, witness=f'{U(st.targets[0])} = {src} when {data} is None', key='data-dict-per-frame')
+            continue
+        callee = None
+        if isinstance(v, ast.Call):
+            name = U(v.func).split('.')[-1]
+            cands = [f for f in ast.walk(mod.tree) if isinstance(f, ast.FunctionDef) and f.name == name]
+            callee = cands[0] if len(cands) == 1 else None
+        if callee is not None and _escaping_mutable_defaults(callee):
+            nm, d, esc = _escaping_mutable_defaults(callee)[0]
+            rr.ob('a frame built without data gets a dict of its own', False, mod, st, witness=f'{U(st.targets[0])} = {src}: {callee.name}() hands out its default `{nm}={U(d)}`, one object for every call', key='data-dict-per-frame')
+        else:
+            rr.unresolved('where the data dict of a frame built without data comes from was not recognised', mod, st, witness=f'{U(st.targets[0])} = {src}'[:120], key='data-dict-per-frame')
+    rr.floor('stores of Frame.__init__ that give a frame built without data its dict', n, 1, mod, init)
+    # the same for every helper of the codec: no function of frame.py / mq.py hands out a mutable default
+    k = 0
+    for path in (FR, MQF):
+        m = repo.module(path)
+        for fn in [f for f in ast.walk(m.tree) if isinstance(f, (ast.FunctionDef, ast.AsyncFunctionDef))]:
+            k += 1
+            for nm, d, esc in _escaping_mutable_defaults(fn):
+                rr.ob('no function of the codec hands out a mutable default argument', False, m, esc, witness=f'{fn.name}({nm}={U(d)}) ... {U(esc)[:60]}', key=f'mutable-default-handed-out|{fn.name}|{nm}')
+    rr.floor('functions of frame.py and mq.py looked at', k, 40, mod, init)
